@@ -4,7 +4,7 @@ import vlib, gen_conv, docs, sdref
 from vlib import hx, unhx, case_line, show
 
 THEOREMS = ["C02_tables", "C02_strings_frame", "C02_bools_frame", "C02_all_strings_frame", "C02_pinned_refuted", "C02_volume_pinned_refuted",
-            "C02_container_string_key_frame", "C02_frame_example"]
+            "C02_container_string_key_frame", "C02_container_list_key_frame", "C02_container_bool_key_frame", "C02_frame_example"]
 
 VALUES = ["v", "a b", "x=y", "p:q", "c,d", "%n", "é", "it's", 'say "hi"', "back\\slash", "tab\there", "-dash", "$X", "a  b", "\U0001F600", "UPPER", "[br]", "#h"]
 SUBCOMMAND = {"container": ["run"], "pod": ["pod", "create"], "volume": ["volume", "create"], "network": ["network", "create"], "kube": ["kube", "play"],
